@@ -7,6 +7,9 @@ S: the six clauses of the property evaluated directly on the implementation's pl
 import json, os, sys
 from vplib import *
 
+OCAML = [("st_drv", ["st_model"], "ocaml/st_drv.ml")]
+HARNESS = [("st", ["st_diff"], False)]
+
 LEAVES_Q = ["D0", "D1", "M0", "M1", "M2", "E1", "E2"]
 
 
